@@ -46,6 +46,20 @@ CHECKS = {
         note='Three by-design drops are listed as known findings and reported as KNOWN-FINDING: trailing cull words cut by '
              'cleanup_desc, unused blocks shorter than 4 characters, and up to 25 characters between a Twp/Rge and a P.M. '
              'designation. Any other lost word is a VIOLATION. Contract finder patterns as in C03.'),
+    'C05': dict(
+        engine='M+S', category='model_checking', design_ref='DESIGN.md §4 C05',
+        technique='SMT (z3): exact bounded encoding of CPython matching of the live multisec_regex / multilot_regex incl. endpos '
+                  '(engine M) for the list contract; CrossHair symbolic execution of the real SecUnpacker / LotUnpacker loops over '
+                  'the proved contract and of the public API on rendered lists',
+        text='M: for every section / lot list of 1-2 items (quick; 3 thorough) over 9 keyword spellings x 12 connectives x optional '
+             'repeated keyword x symbolic 1-2 (1-3) digit numbers x colon spelling, N <= 30 (40): the live pattern matches the whole '
+             'list with first / rightmost number groups on the first / last number and the intervener group at a fixed offset in the '
+             'last connective; cut there (endpos) it matches exactly the list without its last item. S: the real right-to-left loops '
+             'over a contract pattern with that behaviour return the denoted sequence (ranges expanded inclusively in their stated '
+             'direction, reading order, duplicates kept) with a nonsequential warning for a descending range; find_sec, PLSSDesc '
+             'tract order / shared description, Tract.lots and .ilots agree with it on rendered lists.',
+        note='Numbers in S come from boundary sets (formatting concretises them). Chained ranges (a - b - c) are outside the oracle. '
+             'A warning on an equal-endpoint "range" (2 - 2) is tolerated (the statement only requires it for descending ranges).'),
     'C09': dict(
         engine='S', category='other', design_ref='DESIGN.md §4 C09',
         technique='CrossHair symbolic execution of the real tract-construction glue (construct_tracts, get_next_twprge/sec, '
